@@ -400,7 +400,61 @@ fn run_generic(schema_rs: &RS, cap: usize, history: &[GMsg], case: &Case, ctx: &
     None
 }
 
+/// One message through a typed writer for the second generation of `Flat` (same full name, other
+/// fields): it must carry the fingerprint of ITS schema, whatever other writers exist in the process.
+fn second_generation_message(ctx: &mut Ctx, when: &str) -> Option<Failure> {
+    use crate::corpus::gen2;
+    let schema = gen2::Flat::get_schema();
+    let header = expected_header(&schema);
+    let v = gen2::Flat { a: 5, b: "two".into(), c: true, d: 9 };
+    let datum = GenericDatumWriter::builder(&schema).build().ok()?.write_ser_to_vec(&v).ok()?;
+    let r = guarded(|| -> Result<Vec<u8>, String> {
+        let w = SpecificSingleObjectWriter::<gen2::Flat>::new().map_err(|e| e.to_string())?;
+        let mut out = vec![];
+        w.write_ref(&v, &mut out).map_err(|e| e.to_string())?;
+        Ok(out)
+    });
+    ctx.eval();
+    ctx.agg.count("probe.two_generations_of_one_name_in_one_history");
+    match r {
+        Err(p) => Some(Failure::new("panic", "C18 panic writer=specific.second-generation".to_string(), format!("panic: {p}"))),
+        Ok(Err(e)) => Some(Failure::new("good-message-rejected", format!("C18 good-message-rejected writer=specific.second-generation after={when}"), e)),
+        Ok(Ok(msg)) => {
+            if let Some(f) = judge_ok_message(&header, &datum, &msg, 0, "specific.second-generation", when, None) {
+                return Some(f);
+            }
+            let rd = GenericSingleObjectReader::builder().schema(schema.clone()).build().ok()?;
+            match rd.read_value(&mut &msg[..]) {
+                Ok(_) => None,
+                Err(e) => Some(Failure::new(
+                    "own-message-rejected",
+                    "C18 own-message-rejected writer=specific.second-generation".to_string(),
+                    format!("the message written for the second generation of Flat is rejected by the reader for that schema: {e}"),
+                )),
+            }
+        }
+    }
+}
+
 fn run_specific<T: Corp + From<Value> + Into<Value>>(method: u8, history: &[SMsg], case: &Case, ctx: &mut Ctx) -> Option<Failure> {
+    let twin = T::ID == "Flat";
+    if twin && history.len() % 2 == 0 {
+        if let Some(f) = second_generation_message(ctx, "start") {
+            return Some(f);
+        }
+    }
+    if twin && history.len() % 2 == 1 {
+        // the first-generation writer exists (and has written) before the second one is created
+        let r = run_specific_inner::<T>(method, history, case, ctx);
+        if r.is_some() {
+            return r;
+        }
+        return second_generation_message(ctx, "first-generation-history");
+    }
+    run_specific_inner::<T>(method, history, case, ctx)
+}
+
+fn run_specific_inner<T: Corp + From<Value> + Into<Value>>(method: u8, history: &[SMsg], case: &Case, ctx: &mut Ctx) -> Option<Failure> {
     let schema = T::get_schema();
     let header = expected_header(&schema);
     let w = SpecificSingleObjectWriter::<T>::new().expect("specific writer");
